@@ -33,6 +33,11 @@ def run_demo(demo, repo_dir):
         return 'timeout', ''
 
 
+# checks that exercise the same component (for the cross-check sweep)
+GROUPS = [['C01', 'C05', 'C06', 'C14', 'C15'], ['C03', 'C07', 'C08', 'C15', 'C16'], ['C04', 'C09', 'C10', 'C11', 'C15'],
+          ['C02', 'C12', 'C13'], ['C17', 'C07'], ['C16', 'C03']]
+
+
 def do_import(wt, name, second=False):
     src = os.path.join(wt, 'seed_out2' if second else 'seed_out')
     dst = os.path.join(ROOT, 'seeded', name)
@@ -113,12 +118,15 @@ def do_run(names, all_checks=False, tier='quick', harvest=False):
     names = names or sorted(n for n in os.listdir(sd) if os.path.exists(os.path.join(sd, n, 'patch.diff')))
     ids = [json.loads(l)['id'] for l in open(os.path.join(ROOT, 'properties.jsonl'))]
     rows = []
+    rp = os.path.join(ROOT, 'seeded', 'RESULTS.json')
+    results = json.load(open(rp)) if os.path.exists(rp) else {}
     for n in names:
         meta = json.load(open(os.path.join(sd, n, 'meta.json')))
         d = scratch(os.path.join(sd, n, 'patch.diff'))
         try:
             res = {}
-            for pid in (ids if all_checks else [meta['property']]):
+            group = next((g for g in GROUPS if meta['property'] in g), [meta['property']])
+            for pid in (ids if all_checks == 'all' else group if all_checks == 'group' else [meta['property']]):
                 t0 = time.time()
                 r = subprocess.run([os.path.join(ROOT, 'check'), pid, tier], capture_output=True, text=True,
                                    env=dict(os.environ, VERIF_REPO=d))
@@ -133,6 +141,9 @@ def do_run(names, all_checks=False, tier='quick', harvest=False):
         own = res[meta['property']]
         others = [p for p, v in res.items() if v[0] == 'CAUGHT' and p != meta['property']]
         rows.append((n, meta['property'], own[0], ','.join(own[1])[:90], ','.join(others)))
+        results[n] = {'property': meta['property'], 'summary': meta.get('summary'), 'needs': meta.get('needs'),
+                      'checks': {p_: {'verdict': v[0], 'signatures': v[1]} for p_, v in res.items()}}
+        json.dump(results, open(os.path.join(ROOT, 'seeded', 'RESULTS.json'), 'w'), indent=1)
         print('%-28s %-4s %-14s %-90s also:%s' % rows[-1], flush=True)
     return rows
 
@@ -144,6 +155,6 @@ if __name__ == '__main__':
     elif a and a[0] == 'run':
         tier = a[a.index('--tier') + 1] if '--tier' in a else 'quick'
         names = [x for x in a[1:] if not x.startswith('--') and x != tier]
-        do_run(names, '--all-checks' in a, tier, '--harvest' in a)
+        do_run(names, 'all' if '--all-checks' in a else 'group' if '--group' in a else False, tier, '--harvest' in a)
     else:
         print(__doc__)
